@@ -266,11 +266,23 @@ func (r *runner) peer(st Step) {
 		a := map[string]any{"t": it.T, "id": id, "err": it.Err, "tag": tag}
 		switch it.T {
 		case "reply":
-			if it.Err {
+			// the same reply in three spellings: plain; members reordered with insignificant whitespace; names escaped
+			switch sp := (r.nrec + j) % 3; {
+			case it.Err && sp == 0:
 				parts = append(parts, fmt.Sprintf(`{"jsonrpc":"2.0","id":%s,"error":{"code":-7,"message":"tag=%s refused"}}`, id, tag))
-			} else {
+			case it.Err && sp == 1:
+				parts = append(parts, fmt.Sprintf("{ \"error\" : {\"message\":\"tag=%s refused\" ,\t\"code\": -7 } ,\r\n \"id\" : %s , \"jsonrpc\":\"2.0\" }", tag, id))
+			case it.Err:
+				parts = append(parts, fmt.Sprintf(`{"jsonrpc":"2\u002e0","\u0069d":%s,"err\u006fr":{"c\u006fde":-7,"message":"tag=%s refused"}}`, id, tag))
+			case sp == 0:
 				parts = append(parts, fmt.Sprintf(`{"jsonrpc":"2.0","id":%s,"result":%q}`, id, tag))
+			case sp == 1:
+				parts = append(parts, fmt.Sprintf("{ \"result\" : %q ,\r\n\t\"id\" : %s , \"jsonrpc\" : \"2.0\" }", tag, id))
+			default:
+				parts = append(parts, fmt.Sprintf(`{"jsonrpc":"2\u002e0","\u0069d":%s,"r\u0065sult":%q}`, id, tag))
 			}
+		case "strid": // a reply whose id is the STRING spelling of a number we use: a different id, it answers nothing
+			parts = append(parts, fmt.Sprintf(`{"jsonrpc":"2.0","id":"%s","result":%q}`, id, tag))
 		case "bad":
 			parts = append(parts, fmt.Sprintf(`{"jsonrpc":"1.0","id":%s,"result":%q}`, id, tag))
 		case "note":
